@@ -9,18 +9,20 @@
     * `groupBy_keys_distinct`, `find_keys_nodup` — each atom group is reported at most once;
     * `extend_complete`                            — the incremental enumeration misses no tuple that passes the
                                                      code's own element / window / distance tests;
-    * `near_window_complete_ortho`                 — orthorhombic window: 27 images suffice, box test and cubic
-                                                     neighbourhood test never drop an atom within the search length;
-    * `occurrence_in_candidate_group`              — (orthorhombic) the tuple of every occurrence is a member of the
-                                                     candidate group with key `sort g` — no hypothesis on the oracle.
+    * `near_window_complete_ortho`, `near_window_complete_tri` — both branches of the near window: 27 images
+                                                     suffice, box test / three plane-distance tests and the cubic
+                                                     neighbourhood never drop an atom within the search length;
+    * `occurrence_in_candidate_group`              — the tuple of every occurrence is a member of the candidate
+                                                     group with key `sort g` — no hypothesis on the oracle;
+    * `rigid_occurrence_meets_distance_test`       — an ε-rigid copy (2ε ≤ atol) meets the pairwise distance test.
   PARTIAL:
     * `find_complete_partial` — … and is reported, UNDER `OracleAligns` (the quaternion the code builds for that
       tuple with arccos/sin/cos passes the final `np.allclose`): floating-point numerics of the trig helpers,
       validated by the correspondence run, not provable about doubles.
-  NOT proved (stretch, see theorems/C02.json): the triclinic plane test, the passage from an ε-rigid copy to the
-  distance conditions (triangle inequality with square roots), the count corollary.
+  NOT proved (stretch, see theorems/C02.json): `OracleAligns` itself, the count corollary.
 -/
 import MofunModel.Proofs.FindCompleteMain
+import MofunModel.Proofs.FindCompleteTri
 import MofunModel.Proofs.OccRigid
 
 namespace Mofun
@@ -82,6 +84,28 @@ theorem near_window_complete_ortho (inp : FindInput) (hG : orthoGuards inp = tru
     inCube x (imagePos inp g n) (patMax inp) inp.atol = true :=
   window_complete_ortho inp (orthoGuards_spec inp hG) x ((orthoGuards_spec inp hG).inside x hx) g hg n p hp hpm h
 
+/-- **near_window_complete (triclinic branch).** Guards `triGuards` (decidable): non-orthorhombic cell of non-zero
+    volume, `atol ≥ 0`, atoms with fractional coordinates in `[0,1)` (written without division: `0 ≤ sgn(W)·(nv·x) <
+    |W|` for the three normals `nv = A×B, A×C, B×C`, `W = o·nv = ±` cell volume), `‖nv‖·(√m + 2·atol) ≤ |W|` (search
+    length ≤ perpendicular width), `√m ≤ 10⁹·atol`.  Same three conclusions, with the code's three plane-distance
+    tests `−w_k − D ≤ s_k·(n_k·y)/‖n_k‖ ≤ D` (model: `nearTri`) in place of the box test. -/
+theorem near_window_complete_tri (inp : FindInput) (hG : triGuards inp = true) (x : Vec3) (hx : x ∈ inp.pos)
+    (g : Nat) (hg : g < inp.pos.length) (n : Int × Int × Int) (p : Rat) (hp : 0 ≤ p) (hpm : p ≤ patMax inp)
+    (h : iscloseSqrt p (distSq x (imagePos inp g n)) inp.atol = true) :
+    n ∈ searchMultipliers ∧
+    nearTri inp.cell (patMax inp) inp.atol (imagePos inp g n) = true ∧
+    inCube x (imagePos inp g n) (patMax inp) inp.atol = true :=
+  window_complete_tri inp (triGuards_spec inp hG) x ((triGuards_spec inp hG).inside x hx) g hg n p hp hpm h
+
+/-- the guards of the completeness theorems: one of the two branches -/
+def searchGuards (inp : FindInput) : Bool := orthoGuards inp || triGuards inp
+
+theorem windowComplete_of_guards (inp : FindInput) (hG : searchGuards inp = true) : WindowComplete inp := by
+  unfold searchGuards at hG
+  rcases Bool.or_eq_true_iff.mp hG with h | h
+  · exact windowComplete_ortho inp (orthoGuards_spec inp h)
+  · exact windowComplete_tri inp (triGuards_spec inp h)
+
 /-- the square-root-free comparison is what it claims to be: if `iscloseSqrt p d atol` holds with `p ≤ m`, every
     component `Δ` of a vector of squared length `d` satisfies `Δ ≤ √m + 2·atol` (as `leSqrt (Δ − 2·atol) m`) -/
 theorem component_within_search_length (p d atol m Δ : Rat) (h : iscloseSqrt p d atol = true) (hp : 0 ≤ p)
@@ -89,15 +113,15 @@ theorem component_within_search_length (p d atol m Δ : Rat) (h : iscloseSqrt p 
     (hΔ : Δ * Δ ≤ d) : leSqrt (Δ - 2 * atol) m = true :=
   comp_bound p d atol m Δ h hp hd hpm hat hguard hΔ
 
-/-! ## completeness of the search (orthorhombic) -/
+/-! ## completeness of the search (orthorhombic and triclinic cells) -/
 
 /-- for every occurrence (atoms `g k`, integer image vectors `n k`, first atom in the home image, right elements,
     all pairwise image distances accepted by the code's distance test) the tuple of its images is a member of the
     candidate group whose key is `sort g` — for every oracle (none is involved up to this point) -/
 theorem occurrence_in_candidate_group (inp : FindInput) (ax1 : Nat) (oracle : Nat → Nat → Quat)
-    (hG : orthoGuards inp = true) (g : Nat → Nat) (n : Nat → Int × Int × Int) (hocc : DistOccurrence inp g n) :
+    (hG : searchGuards inp = true) (g : Nat → Nat) (n : Nat → Int × Int × Int) (hocc : DistOccurrence inp g n) :
     ∃ grp ∈ (findGroups inp ax1 oracle).2, grp.key = occKey inp.ppos.length g ∧ occTuple inp g n ∈ grp.tuples := by
-  rcases occ_in_group inp (orthoGuards_spec inp hG) g n hocc with ⟨p, hp, hpk, hpm⟩
+  rcases occ_in_group inp (windowComplete_of_guards inp hG) g n hocc with ⟨p, hp, hpk, hpm⟩
   rcases List.getElem_of_mem hp with ⟨gi, hgi, hgp⟩
   refine ⟨mkGroup inp ax1 oracle (p, gi), ?_, hpk, hpm⟩
   rw [findGroups_eq]
@@ -110,16 +134,15 @@ theorem occurrence_in_candidate_group (inp : FindInput) (ax1 : Nat) (oracle : Na
   FULL statement (not proved): for every RigidOccurrence inp ε² g n with 2ε ≤ atol (Model/Occ.lean) and the guards,
       occKey |P| g ∈ (find inp ax1 oracle choose).map Match.key
   for the oracle that the code implements.  Missing: (a) `OracleAligns` for the code's trigonometric construction
-  (float numerics), (b) the step RigidOccurrence → DistOccurrence (|‖y_i − y_j‖ − ‖p_i − p_j‖| ≤ 2ε, a triangle
-  inequality on square roots), (c) the triclinic window.
+  (float numerics), (the triclinic window IS covered).
 -/
-/-- **find_complete_partial** (orthorhombic; under `OracleAligns`). Every occurrence is reported: some reported
+/-- **find_complete_partial** (orthorhombic or triclinic; under `OracleAligns`). Every occurrence is reported: some reported
     match has key `sort g`. -/
 theorem find_complete_partial (inp : FindInput) (ax1 : Nat) (oracle : Nat → Nat → Quat)
-    (choose : Nat → List Nat → Nat) (hG : orthoGuards inp = true) (g : Nat → Nat) (n : Nat → Int × Int × Int)
+    (choose : Nat → List Nat → Nat) (hG : searchGuards inp = true) (g : Nat → Nat) (n : Nat → Int × Int × Int)
     (hocc : DistOccurrence inp g n) (hor : OracleAligns inp ax1 oracle (occTuple inp g n)) :
     ∃ m ∈ find inp ax1 oracle choose, m.key = occKey inp.ppos.length g := by
-  have := find_complete_of_aligned inp ax1 oracle choose (orthoGuards_spec inp hG) g n hocc hor
+  have := find_complete_of_aligned inp ax1 oracle choose (windowComplete_of_guards inp hG) g n hocc hor
   rcases List.mem_map.mp this with ⟨m, hm, hk⟩
   exact ⟨m, hm, hk⟩
 
@@ -131,17 +154,33 @@ theorem rigid_occurrence_meets_distance_test (inp : FindInput) (epsSq : Rat) (h4
     (g : Nat → Nat) (n : Nat → Int × Int × Int) (h : RigidOccurrence inp epsSq g n) : DistOccurrence inp g n :=
   rigid_implies_dist inp epsSq h4 g n h
 
-/-- **find_complete_rigid_partial** (orthorhombic; under `OracleAligns`): every rotated + translated copy of the
+/-- **find_complete_rigid_partial** (orthorhombic or triclinic; under `OracleAligns`): every rotated + translated copy of the
     pattern with each atom within `ε ≤ atol/2`, inside the cell or straddling faces, edges or corners, is reported. -/
 theorem find_complete_rigid_partial (inp : FindInput) (ax1 : Nat) (oracle : Nat → Nat → Quat)
-    (choose : Nat → List Nat → Nat) (hG : orthoGuards inp = true) (epsSq : Rat)
+    (choose : Nat → List Nat → Nat) (hG : searchGuards inp = true) (epsSq : Rat)
     (h4 : 4 * epsSq ≤ inp.atol * inp.atol) (key : List Nat) (hocc : Occ inp epsSq key)
     (hor : ∀ g n, RigidOccurrence inp epsSq g n → OracleAligns inp ax1 oracle (occTuple inp g n)) :
     key ∈ (find inp ax1 oracle choose).map Match.key := by
   rcases hocc with ⟨g, n, hr, hk⟩
   rw [hk]
-  exact find_complete_of_aligned inp ax1 oracle choose (orthoGuards_spec inp hG) g n
+  exact find_complete_of_aligned inp ax1 oracle choose (windowComplete_of_guards inp hG) g n
     (rigid_implies_dist inp epsSq h4 g n hr) (hor g n hr)
+
+/-- **count corollary (partial).** Let `ks` list the distinct occurrence keys of the input.  If every listed
+    occurrence is reported (completeness: `find_complete_partial` under `OracleAligns`) and every reported key is a
+    listed occurrence (soundness: property C01), the NUMBER of matches equals the number of distinct occurrences —
+    because no key is reported twice (`find_keys_nodup`).  Both hypotheses are explicit; what is proved here is the
+    bookkeeping "at most once + sound + complete ⟹ count equal". -/
+theorem find_count_eq_partial (inp : FindInput) (ax1 : Nat) (oracle : Nat → Nat → Quat)
+    (choose : Nat → List Nat → Nat) (ks : List (List Nat)) (hnd : ks.Nodup)
+    (hcomplete : ∀ k ∈ ks, k ∈ (find inp ax1 oracle choose).map Match.key)
+    (hsound : ∀ k ∈ (find inp ax1 oracle choose).map Match.key, k ∈ ks) :
+    (find inp ax1 oracle choose).length = ks.length := by
+  have hperm : ((find inp ax1 oracle choose).map Match.key).Perm ks :=
+    (List.perm_ext_iff_of_nodup (find_keys_nodup inp ax1 oracle choose) hnd).mpr
+      (fun a => ⟨hsound a, hcomplete a⟩)
+  have := hperm.length_eq
+  simpa using this
 
 /-! ## non-vacuity: a concrete structure satisfying all guards, with a copy that straddles a cell face -/
 
@@ -155,6 +194,7 @@ def c02ExampleG : Nat → Nat := fun k => k
 def c02ExampleN : Nat → Int × Int × Int := fun k => if k = 1 then (-1, 0, 0) else (0, 0, 0)
 
 example : orthoGuards c02Example = true := by decide +kernel
+example : searchGuards c02Example = true := by decide +kernel
 
 example : DistOccurrence c02Example c02ExampleG c02ExampleN where
   idx_lt := by
@@ -182,6 +222,33 @@ example : (find c02Example 0 (fun _ _ => ⟨0, 0, 1, 0⟩) (fun _ _ => 0)).map M
   decide +kernel
 
 example : occKey c02Example.ppos.length c02ExampleG = [0, 1] := by decide +kernel
+
+/-- a TRICLINIC cell (A = (10,0,0), B = (2,9,0), C = (1,−3,8)); the O sits in the neighbouring cell image (−1,0,0) -/
+def c02Tri : FindInput :=
+  { elems := ["C", "O"], pos := [⟨17/10, 3, 4⟩, ⟨209/20, 3, 4⟩],
+    cell := ⟨⟨10, 0, 0⟩, ⟨2, 9, 0⟩, ⟨1, -3, 8⟩⟩,
+    pelems := ["C", "O"], ppos := [⟨0, 0, 0⟩, ⟨5/4, 0, 0⟩], atol := 1/20 }
+
+example : triGuards c02Tri = true := by decide +kernel
+example : searchGuards c02Tri = true := by decide +kernel
+
+example : DistOccurrence c02Tri c02ExampleG c02ExampleN where
+  idx_lt := fun k hk => hk
+  home := rfl
+  elem := by
+    intro k hk
+    have hk2 : k < 2 := hk
+    have : k = 0 ∨ k = 1 := by omega
+    rcases this with rfl | rfl <;> rfl
+  dist := by
+    intro i j hji hi
+    have hi2 : i < 2 := hi
+    have h1 : i = 1 := by omega
+    have h0 : j = 0 := by omega
+    subst h1; subst h0
+    decide +kernel
+
+example : (find c02Tri 0 (fun _ _ => ⟨0, 0, 1, 0⟩) (fun _ _ => 0)).map Match.key = [[0, 1]] := by decide +kernel
 
 /-- non-vacuity of `extend_complete` / `find_keys_nodup` on a symmetric pattern: both orderings of an O…O pair are
     candidates, they fall into ONE group, one match is reported -/
